@@ -23,6 +23,7 @@ from sa.callgraph import CallGraph
 from sa.cfg import implied
 from sa.regexsafe import findings as regex_findings
 from sa.report import Ctx
+from sa.shape import Shapes, guard_len
 from sa.srcmodel import AnalysisError, FunctionInfo, Program, ancestors, dotted, norm, parent, unparse, walk_no_nested
 from sa.util import calls_in, cfg_of, key, node_index, stmt_of, stores_of, where
 
@@ -141,6 +142,46 @@ def run(prog: Program, ctx: Ctx) -> None:  # noqa: PLR0912,PLR0915
             if not done:
                 ctx.ob("R2", k, False, f"possible IndexError: {why}", where(f, site))
     ctx.expect_min("R2", n_sites, 25)
+
+    # ------------------------------------------------------------------ R2g constant indexes into lists built by the parsers
+    # `X[c]` with a constant c: X has more than c elements by construction (displays, split(sep), items produced by the block readers - followed
+    # through return values, loop targets, tuple unpacking and parameters), or a dominating test / short-circuit operand / IndexError handler says so.
+    shapes = Shapes(prog, fns)
+    n_const = 0
+    for f in fns:
+        idx = node_index(f)
+        cfg = cfg_of(f)
+        for n in walk_no_nested(f.node):
+            if not (isinstance(n, ast.Subscript) and isinstance(n.ctx, ast.Load)):
+                continue
+            sl, neg = n.slice, False
+            if isinstance(sl, ast.UnaryOp) and isinstance(sl.op, ast.USub):
+                sl, neg = sl.operand, True
+            if not (isinstance(sl, ast.Constant) and isinstance(sl.value, int) and not isinstance(sl.value, bool)):
+                continue
+            if isinstance(n.value, ast.Attribute) and n.value.attr == "elements":
+                continue  # annotation elements: R2b
+            need = sl.value if neg else sl.value + 1
+            if need <= 0:
+                continue
+            n_const += 1
+            subject = unparse(n.value)
+            k = key(f, f"const-index:{norm(n, 50)}@{_branch_key(n)}")
+            sh = shapes.expr(f, n.value, n)
+            if sh is not None and sh.minlen >= need:
+                ctx.ob("R2", k, True, f"`{subject}` has at least {sh.minlen} element(s) by construction", where(f, n))
+                continue
+            if enclosing_catch(n) & {"IndexError", "LookupError", "Exception", "BaseException"}:
+                ctx.ob("R2", k, True, "inside a handler for IndexError", where(f, n))
+                continue
+            facts = [(unparse(a), t) for a, t in _short_circuit_facts(n)]
+            per_node = [guard_len(facts + cfg.facts_on_all_paths(cn), subject) for cn in idx.get(id(n), [])]
+            lo = min(per_node) if per_node else guard_len(facts, subject)
+            ok = lo >= need
+            ctx.ob("R2", k, ok, f"`{subject}` is known to have at least {lo} element(s) here (dominating test)" if ok else
+                   f"possible IndexError: `{unparse(n)}` needs {need} element(s); by construction `{subject}` has at least "
+                   f"{sh.minlen if sh is not None else 'an unknown number of'}, and no test or handler covers the difference", where(f, n))
+    ctx.expect_min("R2", n_const, 40)
 
     # ------------------------------------------------------------------ R2b annotation elements
     n_el = 0
